@@ -86,11 +86,11 @@ def handleSpecial (stream : String) (args : List String) : String :=
     | some id, some data, some profile, some bs =>
       showRes (Rtp.setExtension ⟨present = "1", profile, bs.toArray⟩ id data.toArray (Buf.ofList []) 0) hexA
     | _, _, _, _ => "bad-args"
-  | "marshal", [nc, he, el, pl, pd] =>
-    match nc.toNat?, el.toNat?, pl.toNat?, pd.toNat? with
-    | some nc, some el, some pl, some pd =>
-      showRes (Rtp.marshal nc (he = "1") el pl pd (Buf.ofList []) 0) toString
-    | _, _, _, _ => "bad-args"
+  | "marshal", [pt, nc, he, el, pl, pd] =>
+    match pt.toNat?, nc.toNat?, el.toNat?, pl.toNat?, pd.toNat? with
+    | some pt, some nc, some el, some pl, some pd =>
+      showRes (Rtp.marshal pt nc (he = "1") el pl pd (Buf.ofList []) 0) toString
+    | _, _, _, _, _ => "bad-args"
   | "stun", [hx] =>
     match unhex hx with
     | some bs => showRes (runS Ice.stunDecode bs) (fun m => nats m.digest)
@@ -116,10 +116,10 @@ def handleSpecial (stream : String) (args : List String) : String :=
     | some bs => showRes (runS (fun a => Ice.turnPacket a (known = "1")) bs)
         (fun r => match r with | [_, 2, len] => s!"fwd {len}" | _ => "nofwd")
     | none => "bad-hex"
-  | "turntcp", [bl, len, prov] =>
-    match bl.toNat?, len.toNat?, prov.toNat? with
-    | some bl, some len, some prov => showRes (Ice.turnTcpRecv bl len [prov] (Buf.ofList []) 0) toString
-    | _, _, _ => "bad-args"
+  | "turntcp", [bl, hx] =>
+    match bl.toNat?, unhex hx with
+    | some bl, some bs => showRes (runB (Ice.turnTcpRecv bl) bs) toString
+    | _, _ => "bad-args"
   | "sctp", [crc, hx] =>
     match unhex hx with
     | some bs => match runB (Sctp.handlePacket (crc = "1")) bs with
